@@ -321,6 +321,19 @@ theorem binding_not_visible_after (st : St α) (tag : Tag) (name : Option α) (l
       exact visit_depth b 0
     exact use_after_pop_unresolved st (visit p ++ visit b) .scoped loc uloc x ft hne hc hb hout
 
+/-- **Rebinding is reported.** Defining a name that some open scope already binds adds a
+"name already bound" error (unless this very definition site was already reported). -/
+theorem rebind_reported (st : St α) (x : α) (loc prev : Nat)
+    (hprev : previousDef x st.locals = some prev) (hnew : st.invalid.contains loc = false) :
+    Err.alreadyBound loc x prev ∈ (step st (.define x loc)).errors := by
+  simp only [step, defineId, hprev]
+  split
+  · rename_i h; rw [hnew] at h; cases h
+  · simp
+
+example : (run ([.define "v" 1, .push, .define "v" 2] : List (Ev String)) init).errors
+    = [Err.alreadyBound 2 "v" 1] := by decide
+
 -- the if-let shape of `visit_if_else` (ssa_analysis.rs:329-336): the pattern's bindings are not
 -- visible in the else part
 example : (run ([.push, .define "v" 1, .use "v" 2 false, .pop .discard 0, .use "v" 3 false] : List (Ev String)) init).errors
